@@ -31,6 +31,9 @@ type HarnessSpec struct {
 	Func   string   `json:"func"`
 	Covers []string `json:"covers"`
 	Tier   string   `json:"tier"` // "" both, "thorough" only thorough
+	// NoWitness: the native twin of this harness is a different program (an attack, a race run):
+	// its cover witnesses are not replayed
+	NoWitness bool `json:"no_witness"`
 }
 
 type KnownFinding struct {
@@ -491,17 +494,40 @@ func (d *Driver) check(id string) int {
 		if maxW == 0 {
 			maxW = 1000
 		}
+		noWitness := map[string]bool{}
+		for _, h := range spec.Harnesses {
+			if h.NoWitness {
+				noWitness[h.Func] = true
+			}
+		}
+		knownLabel := map[string]bool{}
+		for _, k := range known {
+			if k.Status == "known" && k.Property == id {
+				knownLabel[k.Label] = true
+			}
+		}
+		done := 0
 		for i, l := range labels {
-			if i >= maxW {
+			if done >= maxW {
 				break
 			}
 			f := eng.covers[l]
+			if noWitness[f.Harness] {
+				continue
+			}
+			done++
 			c := cexOut{Harness: f.Harness, Pkg: pkgOf[f.Harness], Label: l, Kind: "cover", Inputs: f.Inputs, Bounds: eng.bounds}
 			p := filepath.Join(d.work, fmt.Sprintf("cover-%d.json", i))
 			cb, _ := json.Marshal(c)
 			os.WriteFile(p, cb, 0o644)
 			r := d.replayNative(c.Pkg, p, false)
-			if r.Err == "" && contains(r.Covered, l) && len(r.Failed) == 0 && r.Panic == "" {
+			unexpected := 0
+			for _, fl := range r.Failed {
+				if !knownLabel[fl] {
+					unexpected++
+				}
+			}
+			if r.Err == "" && contains(r.Covered, l) && unexpected == 0 && r.Panic == "" {
 				validated++
 			} else {
 				keep := filepath.Join(cexDir, fmt.Sprintf("%s-witness-%s.json", id, sanitize(l)))
